@@ -3110,16 +3110,25 @@ def tab22(units, R, fn_name='buffer_skip_whitespace'):
         return u.ty(b.get('ty0', b.get('ty')))['c'] == 'ptr' if ('ty' in b or 'ty0' in b) else False
     skipped = set()
     nadv = [0]
+    # integer locals that hold the offset of the buffer (size_t offset = buffer->offset;) are read positions as well
+    offset_copies = set()
+    for d_ in fn.locals():
+        if 'init' in d_ and is_mem(strip_casts(d_['init']), 'offset'):
+            offset_copies.add(d_['d'])
+    for a_ in assignments(fn):
+        if is_ref(a_['l']) and a_['op'] == '=' and is_mem(strip_casts(a_['r']), 'offset'):
+            offset_copies.add(strip_casts(a_['l'])['d'])
+
+    def position(l):
+        return is_mem(l, 'offset') or (l.get('k') == 'ref' and (u.ty(l.get('ty0', l['ty']))['c'] == 'ptr' or l.get('d') in offset_copies))
 
     def visit(node, B, env):
         for ev in node_effects(node):
             adv = False
             if ev.kind == 'incdec' and ev.delta > 0:
-                l = strip_casts(ev.lhs)
-                adv = is_mem(l, 'offset') or (l.get('k') == 'ref' and u.ty(l.get('ty0', l['ty']))['c'] == 'ptr')
+                adv = position(strip_casts(ev.lhs))
             elif ev.kind == 'store' and ev.node['op'] == '+=' and (const_val(ev.node['r']) or 0) > 0:
-                l = strip_casts(ev.lhs)
-                adv = is_mem(l, 'offset') or (l.get('k') == 'ref' and u.ty(l.get('ty0', l['ty']))['c'] == 'ptr')
+                adv = position(strip_casts(ev.lhs))
             if adv and node.line and _in_loop(fn, node):
                 nadv[0] += 1
                 skipped.update(B)
